@@ -29,7 +29,7 @@ if $CONF; then
     echo "check $Q exit=$E $L"
     RES="$RES{\"property\":\"$Q\",\"exit\":$E,\"line\":\"$(echo $L | sed 's/"/\\"/g')\"},"
   done
-  git -C /repo checkout -- .
+  git -C /repo checkout -- . && git -C /repo clean -fdq src
   git -C /repo status --short
 fi
 DEST=$V/seeded/$NAME
